@@ -69,13 +69,14 @@ def case_strategy(draw):
         # (fewer than two inside: the two ends of the data are used instead)
         npl = draw(st.sampled_from([6, 1, 5, 9, 1, 7]))
         kw = dict(placed=sorted(x0 + span * (0.02 + 0.96 * (j + 0.5 + 0.3 * draw(uf)) / npl) for j in range(npl)))
+    on_end = draw(st.sampled_from([None, 'min', 'both'])) if opt == 'placed' else None
     exact = None
     if opt == 'bkspace' and draw(st.integers(0, 2)) == 0:
         # a spacing that divides the range of the weighted data exactly (0.1 into 1, 0.4 into 10, ...): the end points are put on x0 and x0 + span
         kw = dict(bkspace=span / draw(st.sampled_from([5, 10, 4, 8, 25, 20])))
         exact = [x0, x0 + span]
     return dict(x=x, sigma=sigma, amp=amp, ph=ph, noise=noise, outl=outl, osign=osign, zeros=zeros, neg=neg, perm=list(perm),
-                nord=draw(st.sampled_from([4, 3, 2])), kw=kw,
+                nord=draw(st.sampled_from([4, 3, 2])), kw=kw, placed_on_end=on_end, positional=draw(st.sampled_from([False, False, True])),
                 upper=draw(st.one_of(st.sampled_from([0, 0.0, 5]), uf.map(lambda v: 3 + 3 * 0.5 * (1 + v)), uf.map(lambda v: 3 + 3 * 0.5 * (1 + v)), uf.map(lambda v: 3 + 3 * 0.5 * (1 + v)))),
                 lower=draw(st.one_of(st.sampled_from([0, 0.0, 5]), uf.map(lambda v: 3 + 3 * 0.5 * (1 + v)), uf.map(lambda v: 3 + 3 * 0.5 * (1 + v)), uf.map(lambda v: 3 + 3 * 0.5 * (1 + v)))),
                 maxiter=draw(st.sampled_from([3, 2, 10, 1, 0])), wvary=draw(st.booleans()),
@@ -169,6 +170,15 @@ def body(case):
     nord, kw = case['nord'], case['kw']
     args = dict(nord=nord, upper=case['upper'], lower=case['lower'], maxiter=case['maxiter'], **{k_: (np.array(v_) if k_ == 'placed' else v_) for k_, v_ in kw.items()})
     wmode = case.get('weights', 'invvar')
+    if 'placed' in args and case.get('placed_on_end') and len(args['placed']) >= 3:
+        # a placed position exactly on the first (and last) positively weighted abscissa: it is inside the range, not outside
+        gx = x[iv > 0] if wmode == 'invvar' else x
+        pl = args['placed'].copy()
+        pl[0] = gx.min()
+        if case['placed_on_end'] == 'both':
+            pl[-1] = gx.max()
+        args['placed'] = pl
+        note_label('placed-on-data-end')
     if wmode != 'invvar':
         # inverse variance omitted: documented default = 1 / (sample variance of y) for every point
         if wmode == 'none-integer-y':
@@ -180,7 +190,13 @@ def body(case):
         iv = np.full(n, 1.0 / v_ if v_ > 0 else 1.0)
     keep = (x.copy(), y.copy(), iv.copy())
     perm = np.array(case['perm'])
-    if wmode == 'invvar':
+    if wmode == 'invvar' and case.get('positional'):
+        # the documented signature iterfit(xdata, ydata, invvar, upper, lower, ...): inverse variance and limits given by position
+        rest = {k_: v_ for k_, v_ in args.items() if k_ not in ('upper', 'lower')}
+        sset, mask = call(iterfit, x, y, iv, case['upper'], case['lower'], **rest)
+        sset_p, mask_p = call(iterfit, x[perm].copy(), y[perm].copy(), invvar=iv[perm].copy(), **args)
+        note_label('positional-limits')
+    elif wmode == 'invvar':
         sset, mask = call(iterfit, x, y, invvar=iv, **args)
         sset_p, mask_p = call(iterfit, x[perm].copy(), y[perm].copy(), invvar=iv[perm].copy(), **args)
     else:
@@ -194,6 +210,16 @@ def body(case):
         check(all(np.array_equal(a, b) for a, b in zip(keep, (x, y, iv))), 'inputs-modified')
         t = np.asarray(sset.breakpoints, dtype='f8')
         lo, hi = t[nord - 1], t[len(t) - nord]
+        if 'placed' in args:
+            # the caller's positions inside the range of the fitted data are the breakpoints; only the outermost two may have been moved
+            # onto the data ends
+            gx = x[iv > 0]
+            pin = np.sort(args['placed'][(args['placed'] >= gx.min()) & (args['placed'] <= gx.max())])
+            if len(pin) >= 3:
+                inner_t = t[nord - 1:len(t) - nord + 1]
+                check(all(bool(np.any(inner_t == p)) for p in pin[1:-1]), 'placed-position-inside-the-data-range-is-not-a-breakpoint',
+                      lambda: dict(placed=args['placed'].tolist(), breakpoints=inner_t.tolist(), data=[float(gx.min()), float(gx.max())]))
+                note_label('placed-kept')
         if 'bkspace' in kw and wmode == 'invvar':
             # breakpoints `bkspace` apart over the weighted data: when the spacing divides their range exactly there are range/bkspace + 1
             xg = x[iv > 0]
